@@ -561,11 +561,19 @@ func successStores(c *Ctx, rule string, fn *ssa.Function, val, errT *flow.Term) 
 		n++
 		rk := fmt.Sprintf("%s/success#%d", fnKey(fn), n)
 		pc := e.PathCondS(r.Block())
+		got := e.SelectAddr(fn.Params[0], nil, r)
 		if !flow.Implies(pc, flow.Eq(errT, flow.Nil())) {
-			c.Run.Bad(rule, rk+"/after-success", ipos(c, r), "a nil error is returned only when "+errT.String()+" == nil", short(pc.Pretty()))
-			continue
+			// `if err == nil { *x = v }; return err`: the error handed back is the decode error itself, so the return is a
+			// success exactly when it is nil; the receiver content is then judged under that assumption
+			ei := errIndex(fn)
+			if ei >= 0 && ei < len(r.Results) && e.Select(r.Results[ei], nil, r).Equal(errT) {
+				got = got.Specialise(flow.Bin("==", errT, flow.Nil()), true).Specialise(flow.Bin("!=", errT, flow.Nil()), false)
+			} else {
+				c.Run.Bad(rule, rk+"/after-success", ipos(c, r), "a nil error is returned only when "+errT.String()+" == nil", short(pc.Pretty()))
+				continue
+			}
 		}
-		checkTerm(c, rule, rk+"/stored", ipos(c, r), "receiver content at the successful return", e.SelectAddr(fn.Params[0], nil, r), val)
+		checkTerm(c, rule, rk+"/stored", ipos(c, r), "receiver content at the successful return", got, val)
 	}
 	if n == 0 {
 		c.Run.Unknown(rule, fnKey(fn)+"/success", fpos(c, fn), "a return with a nil error", "none")
